@@ -2,7 +2,8 @@
 C01 — declarative side at the keeper level: what a successful (or rejected) `MsgMarketSettle` /
 `MsgFillBids` / `MsgFillAsks` may do to bank balances and order records.  Evaluated by the `settleapp`
 driver on the *implementation's* dumps (balances of every involved account, the market account and
-the fee collector; the open orders) before and after the message.  Independent of the model's control
+the fee collector; the open orders; what the hold module has on hold per account) before and after
+the message.  Independent of the model's control
 flow: it only uses the order records and the statement of the property.
 -/
 import PvModel.SettleSpec
@@ -25,10 +26,17 @@ def fillOwnerDelta (o : Order) (d : Denom) : Int :=
 structure Dump where
   bals : List (Addr × Coins)
   orders : List Order
+  /-- what the hold module reports as on hold per account -/
+  holds : List (Addr × Coins) := []
   deriving Repr, DecidableEq
 
 def Dump.bal (d : Dump) (x : Addr) (den : Denom) : Int :=
   match d.bals.find? (·.1 = x) with
+  | some p => amountOf p.2 den
+  | none => 0
+
+def Dump.hold (d : Dump) (x : Addr) (den : Denom) : Int :=
+  match d.holds.find? (·.1 = x) with
   | some p => amountOf p.2 den
   | none => 0
 
@@ -51,9 +59,12 @@ def ratioCeil (ratio : Option Ratio) (p : Int) : Int :=
 /-- The first clause of C01 broken by the observed change `before → after` of a message that the
 implementation accepted.  `ids` = the orders named in the message, `virt` = the message sender as an
 order for `FillBids`/`FillAsks` (it sells / buys the totals), `exactSellerFee` = the seller's ratio
-fee is on exactly the listed price (fills), not on a possibly larger received price (settle). -/
+fee is on exactly the listed price (fills), not on a possibly larger received price (settle).
+An order takes part in a settlement once, however often the request names it: the expected amounts
+are those of the *distinct* named orders. -/
 def acceptedViolation (ratio : Option Ratio) (splitOf : Denom → Nat) (ids : List Nat) (virt : Option Order)
     (before after : Dump) : Option String :=
+  let ids := ids.eraseDups
   let accts := before.bals.map (·.1)
   let users := accts.filter (fun x => x ≠ marketName ∧ x ≠ collectorName)
   let denomsAll := (before.bals ++ after.bals).flatMap (fun p => denoms p.2) |>.eraseDups
@@ -109,6 +120,11 @@ def acceptedViolation (ratio : Option Ratio) (splitOf : Denom → Nat) (ids : Li
       decide (f < 0) ||
       decide (e ≠ (if f = 0 ∨ splitOf d = 0 then 0 else Fees.ceilDiv (f * splitOf d) 10000))) then
     some "app_collector_share"
+  -- what stays on hold is exactly what the remaining open orders need (a settled order's hold is
+  -- released once, nobody else's hold is touched)
+  else if users.any (fun x => denomsAll.any fun d =>
+      decide (after.hold x d ≠ (((after.orders.filter (·.owner = x)).map fun o => amountOf o.holdAmount d).sum))) then
+    some "app_holds"
   else none
 
 /-- a rejected message moves nothing -/
